@@ -6,6 +6,7 @@
    at the world's fuel, so its tie is stated for the same fuel. *)
 From V Require Import Prelude.Base Prelude.PyInt Prelude.PySlice Prelude.PyStr Prelude.PyAst Prelude.PyWorld gen.F_rpc.
 From V Require Import Model.Pdu Model.Request Model.RpcLoop Model.Bind Model.Verification Model.Epm Flow.World_rpc Proofs.Flow_rpc_lib.
+From V Require Import Proofs.RpcTotalLib Proofs.RpcTotalPdu.
 Local Open Scope string_scope.
 Local Open Scope list_scope.
 Local Open Scope Z_scope.
@@ -255,3 +256,18 @@ Proof.
   replace (in_range 6 0) with true by reflexivity.
   cbn [andb]. rewrite andb_true_r. destruct (in_range 1 flags); reflexivity.
 Qed.
+
+(* ---- with the fuel of C12_total_*: fuel > length of the input suffices, for every input ---- *)
+Lemma flow_contextelement_unpack_total mf mfuel fuel data : len data < Z.of_nat mfuel ->
+  run (W mf) fuel k_flow_contextelement_unpack [VO (OCls CContextElement); VB data] =
+  lift_fst OContextElement (context_element_unpack mfuel data).
+Proof. intros H. apply flow_contextelement_unpack. apply noof_spec. exact (proj1 (context_element_unpack_total mfuel data H)). Qed.
+Lemma flow_bind_unpack_total mf fuel data h st : len data < Z.of_nat mf ->
+  run (W mf) fuel k_flow_bind_unpack [VO (OCls CBind); VB data; VO (OHeader h); vst st] = lift_fst OBind (bind_unpack mf data h st).
+Proof. intros H. apply flow_bind_unpack. exact (proj1 (total_le_spec _ _ (bind_unpack_total mf data h st H))). Qed.
+Lemma flow_bindack_unpack_total mf mfuel fuel data h st : len data < Z.of_nat mfuel ->
+  run (W mf) fuel k_flow_bindack_unpack [VO (OCls CBindAck); VB data; VO (OHeader h); vst st] = lift_fst OBindAck (bind_ack_unpack mfuel data h st).
+Proof. intros H. apply flow_bindack_unpack. exact (proj1 (total_le_spec _ _ (bind_ack_unpack_total mfuel data h st H))). Qed.
+Lemma flow_bindnak_unpack_total mf mfuel fuel data h st : len data < Z.of_nat mfuel ->
+  run (W mf) fuel k_flow_bindnak_unpack [VO (OCls CBindNak); VB data; VO (OHeader h); vst st] = lift_fst OBindNak (bind_nak_unpack mfuel data h st).
+Proof. intros H. apply flow_bindnak_unpack. exact (proj1 (total_le_spec _ _ (bind_nak_unpack_total mfuel data h st H))). Qed.
